@@ -264,5 +264,8 @@ func apiRun(op string, a []string) []string {
 	case "api.Payload":
 		return []string{sU64(uint64(toDec(a[0]).Payload()))}
 	}
+	if r, ok := apiFmt(op, a); ok {
+		return r
+	}
 	return []string{"NOAPI"}
 }
